@@ -4,32 +4,18 @@ use crate::support::*;
 use core::cmp::Ordering;
 pub mod ty {
     #![deny(warnings)]
-    #![allow(dead_code, unused_imports)]
+    #![allow(dead_code, unused_imports, non_snake_case)]
     use crate::support::{A, B, C, Good, Bad, m_eq, m_cmp, m_pcmp, m_hash, m_fmt, m_clone, m_clone_c, m_into, g_eq, g_cmp, g_pcmp, g_hash, g_fmt};
     use educe::Educe;
-
-    // names at the derive site that shadow everything the generated code might be tempted to write unqualified
-    #[allow(non_camel_case_types)] pub struct Option; pub struct Result; pub struct Ordering; pub struct Clone; pub struct Copy;
-    pub struct Default; pub struct Debug; pub struct PartialEq; pub struct Eq; pub struct PartialOrd; pub struct Ord; pub struct Hash;
-    pub struct Hasher; pub struct Into; pub struct From; pub struct Deref; pub struct DerefMut; pub struct Formatter; pub struct String;
-    pub struct Vec; pub struct Box; pub struct PhantomData; pub struct Sized; pub struct Send; pub struct Iterator; pub struct Self_;
-    #[allow(non_snake_case)] pub fn Some() {} #[allow(non_snake_case)] pub fn None() {} #[allow(non_snake_case)] pub fn Ok() {} #[allow(non_snake_case)] pub fn Err() {}
-    pub fn drop() {} pub mod core {} pub mod std {} pub mod alloc {} pub mod fmt {} pub mod cmp {} pub mod hash {} pub mod clone {} pub mod marker {}
-    #[allow(unused_macros)] macro_rules! stringify { ($($t:tt)*) => { "SHADOWED" } }
-    #[allow(unused_macros)] macro_rules! unreachable { ($($t:tt)*) => { () } }
-    #[allow(unused_macros)] macro_rules! panic { ($($t:tt)*) => { () } }
-    #[allow(unused_macros)] macro_rules! matches { ($($t:tt)*) => { true } }
-    #[allow(unused_macros)] macro_rules! write { ($($t:tt)*) => { () } }
-    #[allow(unused_macros)] macro_rules! format_args { ($($t:tt)*) => { () } }
-    #[allow(unused_macros)] macro_rules! assert { ($($t:tt)*) => { () } }
 #[derive(Educe)]
-#[educe(Eq, PartialEq, Ord)]
-pub struct T;
+#[repr(isize)]
+#[educe(PartialEq, Ord, Eq)]
+pub enum T { V1 { #[educe(Ord(ignore = true))] x: A<0>, #[educe(Ord(rank(-6), method(m_cmp)))] r#type: A<0>, #[educe(Ord(ignore(true)))] b: A<2> } = 70000, Some { source: A<0>, #[educe(Ord(method(m_cmp), rank = "1"))] b: A<1>, data: A<0> } }
 }
 pub use ty::T;
 impl PartialOrd for T { fn partial_cmp(&self, o: &Self) -> Option<Ordering> { Some(::core::cmp::Ord::cmp(self, o)) } }
-pub fn values() -> Vec<T> { vec![T] }
-pub fn show(x: &T) -> String { #[allow(unused_variables)] match x { T => format!("T()") } }
-pub fn o_disc(x: &T) -> i128 { match x { T => 0 } }
-pub fn o_cmp(a: &T, b: &T) -> Ordering { match (a, b) { (T, T) => {  Ordering::Equal } } }
+pub fn values() -> Vec<T> { vec![T::V1 { x: A(1), r#type: A(1), b: A(0) }, T::V1 { x: A(1), r#type: A(7), b: A(1) }, T::V1 { x: A(1), r#type: A(0), b: A(7) }, T::V1 { x: A(0), r#type: A(7), b: A(1) }, T::V1 { x: A(7), r#type: A(7), b: A(1) }, T::V1 { x: A(7), r#type: A(7), b: A(7) }, T::V1 { x: A(0), r#type: A(7), b: A(7) }, T::V1 { x: A(1), r#type: A(0), b: A(0) }, T::V1 { x: A(7), r#type: A(7), b: A(0) }, T::V1 { x: A(0), r#type: A(0), b: A(0) }, T::V1 { x: A(7), r#type: A(0), b: A(7) }, T::V1 { x: A(0), r#type: A(7), b: A(0) }, T::V1 { x: A(0), r#type: A(1), b: A(7) }, T::V1 { x: A(1), r#type: A(1), b: A(7) }, T::V1 { x: A(7), r#type: A(1), b: A(0) }, T::V1 { x: A(0), r#type: A(1), b: A(1) }, T::V1 { x: A(7), r#type: A(1), b: A(1) }, T::V1 { x: A(7), r#type: A(0), b: A(0) }, T::Some { source: A(0), b: A(0), data: A(0) }, T::Some { source: A(7), b: A(7), data: A(1) }, T::Some { source: A(0), b: A(7), data: A(1) }, T::Some { source: A(1), b: A(0), data: A(0) }, T::Some { source: A(7), b: A(0), data: A(0) }, T::Some { source: A(1), b: A(0), data: A(7) }, T::Some { source: A(0), b: A(0), data: A(7) }, T::Some { source: A(0), b: A(7), data: A(0) }, T::Some { source: A(7), b: A(0), data: A(7) }, T::Some { source: A(7), b: A(0), data: A(1) }, T::Some { source: A(0), b: A(0), data: A(1) }, T::Some { source: A(7), b: A(1), data: A(1) }, T::Some { source: A(1), b: A(7), data: A(0) }, T::Some { source: A(0), b: A(7), data: A(7) }, T::Some { source: A(1), b: A(1), data: A(7) }, T::Some { source: A(1), b: A(0), data: A(1) }, T::Some { source: A(1), b: A(1), data: A(0) }, T::Some { source: A(7), b: A(7), data: A(7) }] }
+pub fn show(x: &T) -> String { #[allow(unused_variables)] match x { T::V1 { x: p0, r#type: p1, b: p2 } => format!("V1({},{},{})", sv(p0), sv(p1), sv(p2)), T::Some { source: p0, b: p1, data: p2 } => format!("Some({},{},{})", sv(p0), sv(p1), sv(p2)) } }
+pub fn o_disc(x: &T) -> i128 { match x { T::V1 { x: _, r#type: _, b: _ } => 70000, T::Some { source: _, b: _, data: _ } => 70001 } }
+pub fn o_cmp(a: &T, b: &T) -> Ordering { match (a, b) { (T::V1 { x: a0, r#type: a1, b: a2 }, T::V1 { x: b0, r#type: b1, b: b2 }) => { let c = m_cmp(a1, b1); if c != Ordering::Equal { return c; } Ordering::Equal }, (T::Some { source: a0, b: a1, data: a2 }, T::Some { source: b0, b: b1, data: b2 }) => { let c = ::core::cmp::Ord::cmp(a0, b0); if c != Ordering::Equal { return c; } let c = ::core::cmp::Ord::cmp(a2, b2); if c != Ordering::Equal { return c; } let c = m_cmp(a1, b1); if c != Ordering::Equal { return c; } Ordering::Equal }, _ => o_disc(a).cmp(&o_disc(b)) } }
 pub fn run(out: &mut Out) { let vs = values(); for (i, a) in vs.iter().enumerate() { for (j, b) in vs.iter().enumerate() { let e = o_cmp(a, b); let g = ::core::cmp::Ord::cmp(a, b); out.check(g == e, "ord_23", "cmp", || format!("cmp({}, {}) = {:?} expected {:?}", show(a), show(b), g, e)); } } }
